@@ -88,8 +88,11 @@ def generate(rng, tier) -> dict:
     N = sum(counts)
     spec = {"nbits": nbits, "nchans": nchans, "nsamps": counts, "pad": [0] * nfiles, "vseed": rng.randrange(1 << 16),
             "mode": "small", "fch1": FCH1, "foff": FOFF}
-    if rng.random() < 0.5:
+    r = rng.random()
+    if r < 0.4:
         start, nsamps = 0, None
+    elif r < 0.55:
+        start, nsamps = rng.randint(0, N - 4), None
     else:
         start = rng.randint(0, N - 4)
         nsamps = rng.randint(4, N - start)
